@@ -216,6 +216,23 @@ def gen_cases(rec, rng, tier):
         yield {'cls': 'random_dfa', 'ref': R, 'iso': h64(R), 'requery': True}
         for _ in range(8 if thorough else 3):
             yield {'cls': 'random_dfa_renamed', 'ref': fag.rename(R, dict(zip(R[0], fag.random_names(rng, len(R[0]), exotic=True)))), 'iso': h64(R)}
+    # beyond the small scopes: 9..40 states, 4..6 symbols, and blown-up copies with many equivalent states
+    for _ in range(120 if thorough else 12):
+        n = rng.choice([9, 10, 11, 12, 16, 17, 26, 27, 33, 40])
+        k = rng.choice([1, 2, 2, 4, 6])
+        R = rng.choice([fag.random_dfa, fag.random_connected_dfa])(rng, n, k, p_final=rng.choice([0.1, 0.5]))
+        yield {'cls': 'large_dfa', 'ref': R, 'iso': h64(R)}
+        B = fag.random_connected_dfa(rng, rng.randint(2, 4), rng.choice([1, 2, 4]))
+        m = rng.choice([4, 5, 9, 10])
+        Q = ['%s_%d' % (q, i) for q in B[0] for i in range(m)]
+        T = [('%s_%d' % (p, i), a, '%s_%d' % (q, rng.randrange(m))) for (p, a, q) in B[2] for i in range(m)]
+        R = fa.make(Q, B[1], T, B[3] + '_0', ['%s_%d' % (q, i) for q in B[4] for i in range(m)])
+        yield {'cls': 'large_blown_up', 'ref': R, 'iso': h64(R)}
+    # layered 'pairs of pairs' DFAs: a block that splits into k*k pieces in one round, block numbers with two digits (k >= 11)
+    for k in ((10, 11, 12, 13, 16) if thorough else (12,)):
+        if rec.shard % 8 == k % 8:
+            R = fag.layered_pairs_dfa(k)
+            yield {'cls': 'layered_pairs_%d' % k, 'ref': R, 'iso': h64(R)}
     # blown-up DFAs: product of a small DFA with a counter -> many equivalent states
     for _ in range(250 if thorough else 15):
         B = fag.random_connected_dfa(rng, rng.randint(1, 3), 2)
